@@ -34,7 +34,7 @@ theorem stepU_closed (f : File) (hcl : f.closed = true) (hfd : f.fdOpen = false)
   | write c fails => simp [File.stepU, File.write, hfd]
   | commit a b c => by_cases hc : f.committed = true <;> simp [File.stepU, File.commitU, hc, hcl]
   | close a c => by_cases hc : f.committed = true <;> simp [File.stepU, File.closeU, hc, hcl]
-  | closeFd => simp [File.stepU, File.closeFd, hfd]
+  | closeFd a => simp [File.stepU, File.closeFdU, hfd]
 
 /-- the abstract specification in a finished phase: nothing changes any more -/
 theorem Abs.step_done (m : Nat) (s : Abs) (h : ∀ b, s.phase ≠ .writing b) (o : OpU) : (s.step m o).1 = s := by
@@ -66,7 +66,7 @@ theorem Abs.step_dest (m : Nat) (s : Abs) (o : OpU) :
     | writing fd => cases fd <;> simp [Abs.step]
     | committed => simp [Abs.step]
     | aborted => simp [Abs.step]
-  | closeFd => cases ph with
+  | closeFd a => cases ph with
     | writing fd => cases fd <;> simp [Abs.step]
     | committed => simp [Abs.step]
     | aborted => simp [Abs.step]
@@ -97,8 +97,8 @@ theorem stepU_sim (u m : Nat) (tmp dst : Path) (hne : tmp ≠ dst) (fs0 : FS) (c
       exact ⟨rfl, rfl, h3, h4, fun h => by simp at h, h6, fun _ => rfl, h8, fun hc _ => h9 (by
         cases clean <;> simp at hc ⊢) rfl⟩
     · cases cm with
-      | true => subst h3; cases o <;> simp [File.stepU, File.write, File.commitU, File.closeU, File.closeFd, Abs.step]
-      | false => simp at h3; subst h3; cases o <;> simp [File.stepU, File.write, File.commitU, File.closeU, File.closeFd, Abs.step]
+      | true => subst h3; cases o <;> simp [File.stepU, File.write, File.commitU, File.closeU, File.closeFdU, Abs.step]
+      | false => simp at h3; subst h3; cases o <;> simp [File.stepU, File.write, File.commitU, File.closeU, File.closeFdU, Abs.step]
   | false =>
     have hcm : cm = false := by
       cases cm with
@@ -113,10 +113,10 @@ theorem stepU_sim (u m : Nat) (tmp dst : Path) (hne : tmp ≠ dst) (fs0 : FS) (c
       cases fd <;> cases fails <;>
         refine ⟨⟨rfl, rfl, ?_, ?_, ?_, ?_, ?_, ?_, ?_⟩, ?_⟩ <;>
         simp_all [File.stepU, File.write, Abs.step, File.phase, run2, applyAct2, applyAct, FS.set]
-    | closeFd =>
-      cases fd <;>
+    | closeFd a =>
+      cases fd <;> cases a <;>
         refine ⟨⟨rfl, rfl, ?_, ?_, ?_, ?_, ?_, ?_, ?_⟩, ?_⟩ <;>
-        simp_all [File.stepU, File.closeFd, Abs.step, File.phase, run2, applyAct2, applyAct, FS.set]
+        simp_all [File.stepU, File.closeFdU, Abs.step, File.phase, OpU.unlinkFails, run2, applyAct2, applyAct, FS.set]
     | close a c =>
       cases fd <;> cases a <;> cases c <;>
         refine ⟨⟨rfl, rfl, ?_, ?_, ?_, ?_, ?_, ?_, ?_⟩, ?_⟩ <;>
@@ -158,10 +158,10 @@ theorem stepU_prefix (u m : Nat) (tmp dst : Path) (hne : tmp ≠ dst) (fs0 : FS)
       left
       cases fd <;> cases fails <;> rcases k with _ | k <;>
         simp_all [File.stepU, File.write, run2, applyAct2, applyAct, FS.set]
-    | closeFd =>
+    | closeFd a =>
       left
-      cases fd <;> rcases k with _ | k <;>
-        simp_all [File.stepU, File.closeFd, run2, applyAct2, applyAct, FS.set]
+      cases fd <;> cases a <;> rcases k with _ | k <;>
+        simp_all [File.stepU, File.closeFdU, run2, applyAct2, applyAct, FS.set]
     | close a c =>
       left
       cases fd <;> cases a <;> cases c <;> rcases k with _ | _ | k <;>
@@ -388,12 +388,21 @@ theorem phase_done_closed (f : File) (inv1 : f.committed = true → f.closed = t
     | true => rfl
     | false => simp [hc, hcl] at h
 
+/-- the directory right after `CreateWithMode`: the old one plus the empty temporary file -/
+theorem create_state (u mode : Nat) (fs : FS) (tmp dst : Path) :
+    run2 u fs ((File.create tmp dst mode).2.map Act2.base) = fs.set tmp (some ⟨[], lessUmask mode u⟩) := rfl
+
+/-- a handle in the writing phase has not been closed -/
+theorem phase_writing_not_closed (f : File) (b : Bool) (h : f.phase = .writing b) : f.closed = false := by
+  unfold File.phase at h
+  cases hc : f.committed <;> cases hcl : f.closed <;> simp [hc, hcl] at h ⊢
+
 /-- what a history commits: `some p` when its first `Commit`/`Close` is a `Commit` whose close and rename succeed, `p`
     being the bytes accepted before it; `none` when it commits nothing (as `committed` for the first model) -/
 def committedU (fdOpen : Bool) : List OpU → Option Bytes
   | [] => none
   | .write c fails :: os => (committedU fdOpen os).map ((if fdOpen && !fails then c else []) ++ ·)
-  | .closeFd :: os => committedU false os
+  | .closeFd _ :: os => committedU false os
   | .commit a b _ :: _ => if fdOpen && !a && !b then some [] else none
   | .close _ _ :: _ => none
 
@@ -415,7 +424,7 @@ theorem Abs.steps_dest (m : Nat) (ops : List OpU) :
       cases fd <;> cases fails <;> simp only [Abs.step, committedU, Bool.and_true, Bool.and_false, Bool.not_true,
         Bool.not_false, Bool.false_and, Bool.true_and, if_true, if_false, Bool.false_eq_true] <;> rw [ih] <;>
         cases committedU _ os <;> simp
-    | closeFd =>
+    | closeFd a =>
       cases fd <;> simp only [Abs.step, committedU] <;> rw [ih]
     | close a c =>
       have : ∀ s : Abs, (∀ b, s.phase ≠ .writing b) → (s.steps m os).1.dest = s.dest := fun s h => by
